@@ -53,6 +53,7 @@ def run(P, rep, tier):
     rep.attempt(r6_codec, P, rep, ctx)
     rep.attempt(r7_versionless, P, rep, ctx)
     rep.attempt(r8_group_lookup_key, P, rep, ctx)
+    rep.attempt(r10_extra_comparisons, P, rep, ctx)
     from .common import r_raw_argument_after_normalisation
 
     rep.attempt(r_raw_argument_after_normalisation, P, rep, ctx, "C16.R9", {"plugin.interface", "plugins", "plugin.types", "schema.pg"})
@@ -619,6 +620,32 @@ def sep_re(s: str) -> str:
 
 
 # ------------------------------------------------------------------------------------------- R7
+def r10_extra_comparisons(P, rep, ctx):
+    """The order of plugin references is DEFINED by __eq__ and __ge__ (the other comparisons are derived by
+    functools.total_ordering).  A further hand-written comparison (__lt__, __le__, __gt__) is a second definition of the same
+    order and must be the same lexicographic chain: for each of group, name, version in this order `if self.k != other.k:
+    return self.k <op> other.k`, then the constant for equal references."""
+    cls = P.cls("schema.plugins.PluginRef")
+    n = 0
+    for nm, op, eq in (("__lt__", ast.Lt, False), ("__gt__", ast.Gt, False), ("__le__", ast.LtE, True)):
+        mfi = cls.methods.get(nm)
+        if mfi is None:
+            continue
+        n += 1
+        body = [st for st in mfi.node.body if not (isinstance(st, ast.Expr) and isinstance(st.value, ast.Constant))]
+        o = mfi.params[1]
+        ok = len(body) == 4
+        if ok:
+            for key, st in zip(("group", "name", "version"), body[:3]):
+                ok = ok and isinstance(st, ast.If) and not st.orelse and norm(st.test) in (f"self.{key} != {o}.{key}", f"{o}.{key} != self.{key}") and len(st.body) == 1 and isinstance(st.body[0], ast.Return) \
+                    and isinstance(st.body[0].value, ast.Compare) and len(st.body[0].value.ops) == 1 and isinstance(st.body[0].value.ops[0], op) and norm(st.body[0].value.left) == f"self.{key}" and norm(st.body[0].value.comparators[0]) == f"{o}.{key}"
+            ok = ok and isinstance(body[3], ast.Return) and isinstance(body[3].value, ast.Constant) and body[3].value.value is eq
+        rep.check(ok, "C16.R10", mfi.qual, f"hand-written {nm} is the lexicographic chain over (group, name, version)", mfi.loc(), construct=f"PluginRef.{nm}",
+                  message=f"PluginRef.{nm} is a second, hand-written definition of the order and is not the chain `if self.k != other.k: return self.k {'<' if op is ast.Lt else '>' if op is ast.Gt else '<='} other.k` over group, name, version: it can disagree with __ge__ / __eq__ (both a < b and b < a, or neither), so sorting and 'newest compatible version' are no longer well defined")
+    if n == 0:
+        rep.ok("C16.R10", cls.qual, "no hand-written comparison besides __eq__ / __ge__ (total_ordering derives the rest)", f"{cls.module.relpath}:{cls.node.lineno}")
+
+
 def r8_group_lookup_key(P, rep, ctx):
     """`plugingroups.get(name, version)` resolves the request to the newest compatible registered group class and then
     looks the *instance* up under that class's own reference.  The key is the resolved plugin's reference, never one built
